@@ -756,6 +756,27 @@ def member_crossing(ctx, rule: str, family: Optional[str], shared: bool = False)
     ctx.ok(rule, "named members filled from the value of the same name", f"{n} constant-key stores in functions")
 
 
+def inconclusive_on_error(fn):
+    """a folded decision that trips over something unforeseen (an Unknown where a value was expected, ...) is no decision: None, and the shape rule decides"""
+    import functools
+
+    @functools.wraps(fn)
+    def w(*a, **k):
+        try:
+            return fn(*a, **k)
+        except AnalysisError:
+            raise
+        except Exception:
+            try:
+                eng = getattr(a[0], "eng", a[0])
+                eng.folder.intercepts = {}
+                eng.folder.one_sided()
+            except Exception:
+                pass
+            return None
+    return w
+
+
 VALIDATOR_PROBES = ["", "a", "http://x", "https://x", "ftp://x", "httpx", 0, 1, -1, True, False, None, 1.5, [], ["a"], ["a", "b"], ["a", 1], [1], [["a"]], [None],
                     ("a",), {}, {"a": 1}, b"a"]
 
@@ -775,6 +796,7 @@ def _validator_probes(eng) -> List[object]:
     return VALIDATOR_PROBES + [Inst(eng.prog.cls("rfc7518.oct_key:OctKey"), {})]
 
 
+@inconclusive_on_error
 def validator_verdicts(eng, fn: FunctionInfo) -> Optional[Dict[int, str]]:
     """Fold a one-argument value validator on the probe battery: index of the probe -> "ok" | name of the exception class it raises.
     None when some probe does not fold or a test of the validator was decided the same way on every probe (11.11: a sample, not a decision)."""
@@ -817,6 +839,7 @@ def validator_accepts_exactly(eng, fn: FunctionInfo, spec_name: str) -> Optional
     return bad
 
 
+@inconclusive_on_error
 def dump_pem_verdicts(eng) -> Optional[List[Tuple[str, str]]]:
     """Fold rfc7517.pem.dump_pem_key on a grid of (encoding, private, password) with the native key symbolic: the call it makes on the key must
     be  private_bytes(encoding=E, format=PKCS8, encryption_algorithm=NoEncryption() | BestAvailableEncryption(<octets of the password>))  when
@@ -866,4 +889,54 @@ def dump_pem_verdicts(eng) -> Optional[List[Tuple[str, str]]]:
         return None
     finally:
         sided = F.one_sided(ignore=("util:to_bytes",))  # the codec is C19's business
+    return None if sided else problems
+
+
+@inconclusive_on_error
+def basekey_accessor_verdicts(eng) -> Optional[List[Tuple[str, str]]]:
+    """Fold the small accessors of BaseKey on probe JWK views (members absent, present, present-but-empty):
+      kid / alg   return the member as it is ("" stays "", absent is None)                                         -> clause "kid"
+      check_use   raises UnsupportedKeyUseError exactly when a use is declared and differs from the requested one,
+                  whatever else the key declares (key_ops, alg)                                                     -> clause "use"
+      check_alg   likewise for alg                                                                                   -> clause "alg"
+    Returns [(clause, problem)]; None when something does not fold or a test was decided one way only."""
+    from ..fold import Inst, FuncVal, FoldRaise, is_unknown
+    P, F = eng.prog, eng.folder
+    c = P.cls("rfc7518.oct_key:OctKey")
+    problems: List[Tuple[str, str]] = []
+    F.start_trace()
+    try:
+        for member in ("kid", "alg"):
+            prop = c.lookup(member)
+            if prop is None:
+                return None
+            for dv, want in (({"kty": "oct"}, None), ({"kty": "oct", member: "a"}, "a"), ({"kty": "oct", member: ""}, ""), ({"kty": "oct", member: "0"}, "0")):
+                r = F.get_attr(Inst(c, {"dict_value": dict(dv)}), member)
+                if is_unknown(r):
+                    return None
+                if r != want or type(r) is not type(want):
+                    problems.append(("kid", f"key.{member} of a key whose JWK {'holds ' + member + '=' + repr(dv[member]) if member in dv else 'has no ' + member} folds to {r!r}, not {want!r}"))
+        for meth, member, exc in (("check_use", "use", "UnsupportedKeyUseError"), ("check_alg", "alg", "UnsupportedKeyAlgorithmError")):
+            fn = c.lookup(meth)
+            if fn is None:
+                return None
+            vals = ("sig", "enc") if member == "use" else ("HS256", "HS512")
+            for declared in (None, vals[0], vals[1]):
+                for extra in ({}, {"key_ops": ["sign", "verify"]}, {"key_ops": ["encrypt"]}, {"kid": "k"}, {"alg": "HS256"} if member == "use" else {"use": "sig"}):
+                    for asked in vals:
+                        dv = {"kty": "oct", **extra}
+                        if declared is not None:
+                            dv[member] = declared
+                        try:
+                            r = F.call(FuncVal(fn, None, Inst(c, {"dict_value": dict(dv)})), [asked], {})
+                            if is_unknown(r):
+                                return None
+                            got = "ok"
+                        except FoldRaise as ex:
+                            got = getattr(getattr(ex.exc, "cls", None), "name", None) or getattr(ex, "name", "") or "?"
+                        want = exc if (declared is not None and declared != asked) else "ok"
+                        if got != want:
+                            problems.append((member, f"{meth}({asked!r}) on a key that declares {dv!r} folds to {got}, expected {want}"))
+    finally:
+        sided = F.one_sided()
     return None if sided else problems
